@@ -382,6 +382,94 @@ func errClass(err error) string {
 	return s
 }
 
+// portsScenario: one session sends to the same host name on alternating ports (two services of one host).
+// Each datagram must arrive at the socket bound to the port it names, and each reply must carry that socket's
+// address as its source.
+func portsScenario(param string) vsched.Scenario {
+	sp := parse(param)
+	return func() (func(), func(*vsched.Exec) (string, string)) {
+		var (
+			env      *udpenv.Env
+			buildErr error
+			ta, tb   *udpenv.Target
+			replies  []string
+			stopped  bool
+		)
+		body := func() {
+			var err error
+			env, err = udpenv.New(udpenv.Spec{Server: sp.server, Batch: sp.batch, Client: "direct"})
+			if err != nil {
+				buildErr = err
+				return
+			}
+			ta, tb = env.NewTargetAt(1, 7000), env.NewTargetAt(1, 7001)
+			vudp.Hosts = map[string][]netip.Addr{"svc.test": {ta.Addr.Addr()}}
+			if err := env.Start(context.Background()); err != nil {
+				buildErr = err
+				return
+			}
+			var tg vsched.Group
+			tg.Go(ta.Serve)
+			tg.Go(tb.Serve)
+			c := env.NewClient(0, 0)
+			for k, port := range []uint16{7000, 7001, 7000, 7001} {
+				p := fmt.Sprintf("q%d:%d", k, port)
+				if err := c.Send(conn.MustAddrFromDomainPort("svc.test", port), []byte(p)); err != nil {
+					replies = append(replies, "send: "+err.Error())
+					continue
+				}
+				src, pl, err := c.Recv(0)
+				if err != nil {
+					replies = append(replies, "recv: "+errClass(err))
+					continue
+				}
+				replies = append(replies, fmt.Sprintf("%s from :%d", pl, src.Port()))
+			}
+			c.Close()
+			env.Stop()
+			stopped = true
+			ta.Close()
+			tb.Close()
+			tg.Wait()
+			vudp.Finish()
+		}
+		check := func(e *vsched.Exec) (string, string) {
+			obs := fmt.Sprintf("a=[%s] b=[%s] replies=%q stopped=%v", ta.Payloads(), tb.Payloads(), replies, stopped)
+			if buildErr != nil {
+				return obs, "harness: cannot build/start services: " + buildErr.Error()
+			}
+			if len(e.Panics) > 0 {
+				return obs, "panic: " + e.Panics[0]
+			}
+			if e.Deadlock || e.HorizonHit {
+				return obs, "a datagram sent to one port of a host name never got its reply (or the run did not terminate): " + env.Canon(strings.Join(e.Blocked, " "))
+			}
+			if ta.Payloads() != `"q0:7000","q2:7000"` || tb.Payloads() != `"q1:7001","q3:7001"` {
+				return obs, fmt.Sprintf("datagrams addressed to ports 7000 and 7001 of one host name arrived as port 7000: [%s], port 7001: [%s]", ta.Payloads(), tb.Payloads())
+			}
+			want := []string{"echo:q0:7000 from :7000", "echo:q1:7001 from :7001", "echo:q2:7000 from :7000", "echo:q3:7001 from :7001"}
+			if sp.server == "direct" {
+				return obs, "" // a tunnel server has one fixed target; not part of this family
+			}
+			if fmt.Sprint(replies) != fmt.Sprint(want) {
+				return obs, fmt.Sprintf("replies %q, want %q", replies, want)
+			}
+			return obs, ""
+		}
+		return body, check
+	}
+}
+
+func portsFamily() []string {
+	var out []string
+	for _, sv := range []string{"none", "socks5", "ss2022"} {
+		for _, b := range []string{"no", "sendmmsg"} {
+			out = append(out, spec{server: sv, batch: b, client: "direct"}.String())
+		}
+	}
+	return out
+}
+
 func family(c *harness.Check) []string {
 	var out []string
 	servers := []string{"none", "socks5", "ss2022", "ss2022mu", "direct"} // ss2022mu: multi-user server (identity headers), sessions of two users
@@ -445,6 +533,7 @@ func main() {
 	}
 	harness.NoEarlyClock = true // C11 does not quantify over timer orders; timeouts are C12's subject
 	harness.Register("udp", scenario)
+	harness.Register("udpports", portsScenario)
 	harness.WorkerMain()
 	c := harness.Start("C11")
 	if c.Replay != "" {
@@ -453,8 +542,8 @@ func main() {
 		}
 		os.Exit(0)
 	}
-	c.Rule = "one case = one interleaving of the relay's threads (server receive loop, per-session init/downlink and uplink), N harness clients, echo targets and the resolver, for a scenario {server protocol, batch mode, IP/domain targets, sessions, datagrams per session, garbage, client address change}; distinct = distinct observation record"
-	c.Assumptions = []string{"real loopback sockets; a blocking read is enabled only when poll() reports a queued datagram, deadlines are virtual; loopback delivery is synchronous with sendto (measured)", "outgoing client is the direct client (upstream proxy clients are covered at the packer level by C05)", "SOCKS5 server is driven at the UDP level (the TCP association is not part of the UDP relay service)", "delay-bounded exploration; bound reported per scenario"}
+	c.Rule = "one case = one interleaving of the relay's threads (server receive loop, per-session init/downlink and uplink), N harness clients, echo targets and the resolver, for a scenario {server protocol (incl. multi-user ss2022), batch mode, IP/domain targets, sessions, datagrams per session, garbage, client address change, clients behind one IP, oversize replies, wildcard listener, outgoing client}; udpports: one session to two ports of one host name; distinct = distinct observation record"
+	c.Assumptions = []string{"real loopback sockets; a blocking read is enabled only when poll() reports a queued datagram, deadlines are virtual; loopback delivery is synchronous with sendto (measured)", "outgoing client: the direct client, or a none / ss2022 client towards a harness upstream proxy", "SOCKS5 server is driven at the UDP level (the TCP association is not part of the UDP relay service)", "delay-bounded exploration; bound reported per scenario"}
 	params := family(c)
 	for i, r := range harness.ExploreBatch("udp", params, harness.Pick(c, 1, 2), harness.Pick(c, 25*time.Second, 3*time.Minute), true) {
 		if i%7 == 0 {
@@ -462,6 +551,9 @@ func main() {
 		}
 		c.AddExploration("udp", r.Param, r.Stats, harness.Confirm(scenario(r.Param)))
 	}
-	c.Extra["scenarios"] = len(params)
+	for _, r := range harness.ExploreBatch("udpports", portsFamily(), harness.Pick(c, 1, 2), harness.Pick(c, 25*time.Second, 3*time.Minute), true) {
+		c.AddExploration("udpports", r.Param, r.Stats, harness.Confirm(portsScenario(r.Param)))
+	}
+	c.Extra["scenarios"] = len(params) + len(portsFamily())
 	c.Finish()
 }
